@@ -27,9 +27,12 @@ def defaultedOuterBeforeInner (o i R : List Param) : Prop :=
   (∃ p ∈ positionals o, p.dflt.isSome) ∧
   (∃ p ∈ positionals R, p.name ∈ names (i.filter isNamed) ∧ p.name ∉ names (o.filter isNamed))
 
-/-- both declare a same-named (non-star) parameter -/
+/-- both declare a same-named parameter — other than a star parameter of the same kind in both,
+    which is the forwarding itself.  (Until `fix:` D29 a star parameter of one side named like a
+    named parameter of the other only surfaced as the constructor's plain ValueError, or — three
+    signatures deep — as a result whose provenance lacked an entry.) -/
 def sharedNamed (o i : List Param) : Prop :=
-  ∃ x, x ∈ names (o.filter isNamed) ∧ x ∈ names (i.filter isNamed)
+  ∃ p ∈ o, ∃ q ∈ i, p.name = q.name ∧ ¬ (p.kind = q.kind ∧ (p.kind = .vp ∨ p.kind = .vk))
 
 theorem embed_sound (o i R : USig) (uva uvk : Bool) (n : Nat) (K : List Nat)
     (ho : WF o.params) (hi : WF i.params) (hK : K.Nodup)
@@ -142,10 +145,19 @@ def rsO2 : USig := { params := [⟨1, .pk, none, none, .empty⟩] }
 def rsI2 : USig := { params := [⟨2, .pk, none, none, .empty⟩] }
 example : WF rsO1.params ∧ WF rsI1.params ∧ embed true true [rsO1, rsI1] = .error .incompatible ∧
     sharedNamed rsO1.params rsI1.params :=
-  ⟨by decide, by decide, embed_two_incompatible_of (by rfl), ⟨1, by decide, by decide⟩⟩
+  ⟨by decide, by decide, embed_two_incompatible_of (by rfl),
+    ⟨⟨1, .pk, none, none, .empty⟩, by decide, ⟨1, .pk, none, none, .empty⟩, by decide, rfl, by decide⟩⟩
 example : WF rsO2.params ∧ WF rsI2.params ∧ embed true true [rsO2, rsI2] = .error .incompatible ∧
     ¬ sharedNamed rsO2.params rsI2.params :=
   ⟨by decide, by decide, embed_two_incompatible_of (by rfl), by unfold sharedNamed; decide⟩
+
+/-- the new disjunct: an outer named parameter called like the inner `*args` (D29) -/
+def rsO3 : USig := { params := [⟨11, .pk, none, none, .empty⟩, ⟨21, .vp, none, none, .empty⟩, ⟨22, .vk, none, none, .empty⟩] }
+def rsI3 : USig := { params := [⟨11, .vp, none, none, .empty⟩, ⟨23, .vk, none, none, .empty⟩] }
+example : WF rsO3.params ∧ WF rsI3.params ∧ embed true true [rsO3, rsI3] = .error .incompatible ∧
+    sharedNamed rsO3.params rsI3.params :=
+  ⟨by decide, by decide, embed_two_incompatible_of (by rfl),
+    ⟨⟨11, .pk, none, none, .empty⟩, by decide, ⟨11, .vp, none, none, .empty⟩, by decide, rfl, by decide⟩⟩
 
 /-- `embed_fold_params`: the hypothesis is satisfiable -/
 example : ∃ M, embed true true [exO, exI] = .ok M :=
